@@ -1,4 +1,485 @@
-use serde_json::Value;
-use verif_core::common::Args;
-pub fn run(_args: &Args) -> i32 { eprintln!("C19 not built yet"); 2 }
-pub fn replay(_v: &Value, _path: &str) -> i32 { 2 }
+//! C19 — counted repetition and the raw combinators obey their stated bounds.
+//!
+//! The combinators are instantiated directly from the runtime crate (no generated grammar)
+//! and compared with a small model written from the statement of the property.
+
+use crate::util::for_all_strings;
+use pest_typed::choices::Choice2;
+use pest_typed::predefined_node::{AtomicRepeat, Push, RepExact, RepMin, RepMinMax, SkipChar, Str, POP};
+use pest_typed::tracker::Tracker;
+use pest_typed::{Position, Span, Stack, StringWrapper, TypedNode};
+use serde_json::{json, Value};
+use verif_core::common::{fnv, report_violation, show, Args, Evidence, Tier};
+
+#[derive(Clone, Copy, Debug, Eq, Hash, Ord, PartialEq, PartialOrd)]
+pub enum R {
+    #[allow(clippy::upper_case_acronyms)]
+    EOI,
+}
+
+macro_rules! wrapper {
+    ($name:ident, $s:expr) => {
+        #[derive(Clone, PartialEq, Eq, Hash, Debug)]
+        pub struct $name;
+        impl StringWrapper for $name {
+            const CONTENT: &'static str = $s;
+        }
+    };
+}
+wrapper!(WA, "a");
+wrapper!(WAB, "ab");
+wrapper!(WSP, " ");
+wrapper!(WE, "é");
+
+type Ign = AtomicRepeat<Str<WSP>>;
+type ElStr = Str<WA>;
+type ElChoice = Choice2<Str<WAB>, Str<WA>>;
+type ElNested = RepMinMax<Str<WA>, Ign, 0, 1, 2>;
+type ElPush = Push<Str<WA>>;
+type ElUni = Choice2<Str<WE>, Str<WA>>;
+
+// ---------------------------------------------------------------------------------------
+// the model
+
+#[derive(Clone, Debug)]
+enum M {
+    Str(&'static str),
+    Choice(Vec<M>),
+    /// greedy repetition: element, skip blanks between iterations, min, max (None = unbounded)
+    Rep(Box<M>, bool, usize, Option<usize>),
+    Pair(Box<M>, Box<M>),
+    Opt(Box<M>),
+    Array(Box<M>, usize),
+    SkipChar(usize),
+    Push(Box<M>),
+    Pop,
+}
+
+/// What a match looks like: end offset and, for the outermost repetition, the number of
+/// blanks skipped before each element.
+#[derive(Clone, Debug, PartialEq)]
+struct Out {
+    end: usize,
+    skipped: Vec<usize>,
+}
+
+fn model(m: &M, input: &str, pos: usize, stack: &mut Vec<String>) -> Option<Out> {
+    let rest = &input[pos..];
+    match m {
+        M::Str(s) => rest.starts_with(s).then(|| Out { end: pos + s.len(), skipped: vec![] }),
+        M::Choice(alts) => {
+            for a in alts {
+                let saved = stack.clone();
+                if let Some(o) = model(a, input, pos, stack) {
+                    return Some(o);
+                }
+                *stack = saved;
+            }
+            None
+        }
+        M::Rep(inner, skip, min, max) => {
+            let mut p = pos;
+            let mut skipped = vec![];
+            let mut n = 0usize;
+            loop {
+                if let Some(mx) = max {
+                    if n >= *mx {
+                        break; // stops at MAX even if more could match
+                    }
+                }
+                let saved = stack.clone();
+                let mut q = p;
+                let mut blanks = 0;
+                if n > 0 && *skip {
+                    while input[q..].starts_with(' ') {
+                        q += 1;
+                        blanks += 1;
+                    }
+                }
+                match model(inner, input, q, stack) {
+                    Some(o) => {
+                        // a skip is only kept when an iteration follows it
+                        p = o.end;
+                        skipped.push(blanks);
+                        n += 1;
+                    }
+                    None => {
+                        *stack = saved;
+                        break;
+                    }
+                }
+            }
+            (n >= *min).then_some(Out { end: p, skipped })
+        }
+        M::Pair(a, b) => {
+            let o1 = model(a, input, pos, stack)?;
+            let o2 = model(b, input, o1.end, stack)?;
+            Some(Out { end: o2.end, skipped: vec![] })
+        }
+        M::Opt(inner) => {
+            let saved = stack.clone();
+            match model(inner, input, pos, stack) {
+                Some(o) => Some(Out { end: o.end, skipped: vec![] }),
+                None => {
+                    *stack = saved;
+                    Some(Out { end: pos, skipped: vec![] })
+                }
+            }
+        }
+        M::Array(inner, n) => {
+            let mut p = pos;
+            for _ in 0..*n {
+                p = model(inner, input, p, stack)?.end;
+            }
+            Some(Out { end: p, skipped: vec![] })
+        }
+        M::SkipChar(n) => {
+            let mut it = rest.char_indices();
+            let mut end = 0;
+            for _ in 0..*n {
+                let (i, c) = it.next()?;
+                end = i + c.len_utf8();
+            }
+            Some(Out { end: pos + end, skipped: vec![] })
+        }
+        M::Push(inner) => {
+            let o = model(inner, input, pos, stack)?;
+            stack.push(input[pos..o.end].to_string());
+            Some(o)
+        }
+        M::Pop => {
+            let top = stack.last()?.clone();
+            if rest.starts_with(&top) {
+                stack.pop();
+                Some(Out { end: pos + top.len(), skipped: vec![] })
+            } else {
+                None
+            }
+        }
+    }
+}
+
+// ---------------------------------------------------------------------------------------
+// the typed side
+
+#[derive(Debug, PartialEq, Clone)]
+struct Obs {
+    parse: Option<usize>,
+    check: Option<usize>,
+    count: Option<usize>,
+    skipped: Option<Vec<usize>>,
+    stack_parse: Vec<String>,
+    stack_check: Vec<String>,
+}
+
+trait Probe<'i>: TypedNode<'i, R> {
+    fn count(&self) -> Option<usize> {
+        None
+    }
+    fn skipped(&self) -> Option<Vec<usize>> {
+        None
+    }
+}
+impl<'i, W: StringWrapper + 'static> Probe<'i> for Str<W> {}
+impl<'i, A: Probe<'i>, B: Probe<'i>> Probe<'i> for Choice2<A, B> {}
+impl<'i, const N: usize> Probe<'i> for SkipChar<'i, N> {}
+impl<'i, T: Probe<'i>> Probe<'i> for Option<T> {}
+impl<'i, T: Probe<'i>, const N: usize> Probe<'i> for [T; N] {}
+impl<'i, A: Probe<'i>, B: Probe<'i>> Probe<'i> for (A, B) {}
+impl<'i, T: Probe<'i>> Probe<'i> for Push<T> {}
+impl<'i> Probe<'i> for POP<'i> {}
+impl<'i, T: Probe<'i>> Probe<'i> for AtomicRepeat<T> {
+    fn count(&self) -> Option<usize> {
+        Some(self.content.len())
+    }
+}
+impl<'i, T: Probe<'i>, const SKIP: usize, const MIN: usize> Probe<'i> for RepMin<T, Ign, SKIP, MIN> {
+    fn count(&self) -> Option<usize> {
+        Some(self.content.len())
+    }
+    fn skipped(&self) -> Option<Vec<usize>> {
+        Some(self.content.iter().map(|s| s.skipped.iter().map(|x| x.content.len()).sum()).collect())
+    }
+}
+impl<'i, T: Probe<'i>, const SKIP: usize, const MIN: usize, const MAX: usize> Probe<'i> for RepMinMax<T, Ign, SKIP, MIN, MAX> {
+    fn count(&self) -> Option<usize> {
+        Some(self.content.len())
+    }
+    fn skipped(&self) -> Option<Vec<usize>> {
+        Some(self.content.iter().map(|s| s.skipped.iter().map(|x| x.content.len()).sum()).collect())
+    }
+}
+
+fn stack_texts(s: &Stack<Span<'_>>) -> Vec<String> {
+    s[0..s.len()].iter().map(|x| x.as_str().to_string()).collect()
+}
+
+fn observe<'i, T: Probe<'i>>(input: &'i str) -> Result<Obs, String> {
+    crate::util::catch(|| {
+        let pos = Position::from_start(input);
+        let mut stack = Stack::new();
+        let mut tracker = Tracker::<R>::new(pos);
+        let p = T::try_parse_partial_with(pos, &mut stack, &mut tracker);
+        let stack_parse = stack_texts(&stack);
+        let mut stack2 = Stack::new();
+        let mut tracker2 = Tracker::<R>::new(pos);
+        let c = T::try_check_partial_with(pos, &mut stack2, &mut tracker2);
+        Obs {
+            parse: p.as_ref().map(|(i, _)| i.pos()),
+            check: c.map(|i| i.pos()),
+            count: p.as_ref().and_then(|(_, t)| t.count()),
+            skipped: p.as_ref().and_then(|(_, t)| t.skipped()),
+            stack_parse,
+            stack_check: stack_texts(&stack2),
+        }
+    })
+}
+
+macro_rules! ob {
+    ($t:ty) => {{
+        fn f(s: &str) -> Result<Obs, String> {
+            observe::<$t>(s)
+        }
+        f
+    }};
+}
+
+struct Case {
+    name: String,
+    model: M,
+    run: fn(&str) -> Result<Obs, String>,
+    min: usize,
+    max: Option<usize>,
+    is_rep: bool,
+    skip: bool,
+}
+
+fn el_model(kind: u8) -> M {
+    match kind {
+        0 => M::Str("a"),
+        1 => M::Choice(vec![M::Str("ab"), M::Str("a")]),
+        2 => M::Rep(Box::new(M::Str("a")), false, 1, Some(2)),
+        3 => M::Push(Box::new(M::Str("a"))),
+        _ => M::Choice(vec![M::Str("é"), M::Str("a")]),
+    }
+}
+
+macro_rules! push_minmax {
+    ($v:expr, $el:ty, $kind:expr, $kname:expr, $skip:expr, [$(($min:expr, $max:expr)),*]) => {
+        $(
+            $v.push(Case {
+                name: format!("RepMinMax<{}, SKIP={}, {}, {}>", $kname, $skip, $min, $max),
+                model: M::Rep(Box::new(el_model($kind)), $skip == 1, $min, Some($max)),
+                run: ob!(RepMinMax<$el, Ign, $skip, $min, $max>),
+                min: $min, max: Some($max), is_rep: true, skip: $skip == 1,
+            });
+        )*
+    };
+}
+macro_rules! push_min {
+    ($v:expr, $el:ty, $kind:expr, $kname:expr, $skip:expr, [$($min:expr),*]) => {
+        $(
+            $v.push(Case {
+                name: format!("RepMin<{}, SKIP={}, {}>", $kname, $skip, $min),
+                model: M::Rep(Box::new(el_model($kind)), $skip == 1, $min, None),
+                run: ob!(RepMin<$el, Ign, $skip, $min>),
+                min: $min, max: None, is_rep: true, skip: $skip == 1,
+            });
+        )*
+    };
+}
+macro_rules! push_exact {
+    ($v:expr, $el:ty, $kind:expr, $kname:expr, $skip:expr, [$($n:expr),*]) => {
+        $(
+            $v.push(Case {
+                name: format!("RepExact<{}, SKIP={}, {}>", $kname, $skip, $n),
+                model: M::Rep(Box::new(el_model($kind)), $skip == 1, $n, Some($n)),
+                run: ob!(RepExact<$el, Ign, $skip, $n>),
+                min: $n, max: Some($n), is_rep: true, skip: $skip == 1,
+            });
+        )*
+    };
+}
+macro_rules! all_reps {
+    ($v:expr, $el:ty, $kind:expr, $kname:expr) => {
+        push_minmax!($v, $el, $kind, $kname, 0, [(0,0),(0,1),(0,2),(0,3),(0,4),(1,1),(1,2),(1,3),(1,4),(2,2),(2,3),(2,4),(3,3),(3,4),(4,4)]);
+        push_minmax!($v, $el, $kind, $kname, 1, [(0,0),(0,1),(0,2),(0,3),(0,4),(1,1),(1,2),(1,3),(1,4),(2,2),(2,3),(2,4),(3,3),(3,4),(4,4)]);
+        push_min!($v, $el, $kind, $kname, 0, [0, 1, 2, 3, 4]);
+        push_min!($v, $el, $kind, $kname, 1, [0, 1, 2, 3, 4]);
+        push_exact!($v, $el, $kind, $kname, 0, [0, 1, 2, 3, 4]);
+        push_exact!($v, $el, $kind, $kname, 1, [0, 1, 2, 3, 4]);
+    };
+}
+
+fn simple(name: &str, model: M, run: fn(&str) -> Result<Obs, String>) -> Case {
+    Case { name: name.to_string(), model, run, min: 0, max: None, is_rep: false, skip: false }
+}
+
+fn cases(unicode: bool) -> Vec<Case> {
+    let mut v = vec![];
+    if unicode {
+        all_reps!(v, ElUni, 4, "Choice2<é,a>");
+        v.push(simple("SkipChar<0>", M::SkipChar(0), ob!(SkipChar<'_, 0>)));
+        v.push(simple("SkipChar<1>", M::SkipChar(1), ob!(SkipChar<'_, 1>)));
+        v.push(simple("SkipChar<2>", M::SkipChar(2), ob!(SkipChar<'_, 2>)));
+        v.push(simple("SkipChar<3>", M::SkipChar(3), ob!(SkipChar<'_, 3>)));
+        v.push(simple("[Choice2<é,a>; 2]", M::Array(Box::new(el_model(4)), 2), ob!([ElUni; 2])));
+        return v;
+    }
+    all_reps!(v, ElStr, 0, "Str<a>");
+    all_reps!(v, ElChoice, 1, "Choice2<ab,a>");
+    all_reps!(v, ElNested, 2, "RepMinMax<Str<a>,0,1,2>");
+    all_reps!(v, ElPush, 3, "Push<Str<a>>");
+    v.push(simple("[Str<a>; 0]", M::Array(Box::new(el_model(0)), 0), ob!([ElStr; 0])));
+    v.push(simple("[Str<a>; 1]", M::Array(Box::new(el_model(0)), 1), ob!([ElStr; 1])));
+    v.push(simple("[Str<a>; 2]", M::Array(Box::new(el_model(0)), 2), ob!([ElStr; 2])));
+    v.push(simple("[Str<a>; 3]", M::Array(Box::new(el_model(0)), 3), ob!([ElStr; 3])));
+    v.push(simple("[Choice2<ab,a>; 2]", M::Array(Box::new(el_model(1)), 2), ob!([ElChoice; 2])));
+    v.push(simple("[Choice2<ab,a>; 3]", M::Array(Box::new(el_model(1)), 3), ob!([ElChoice; 3])));
+    v.push(simple("(Str<a>, Choice2<ab,a>)", M::Pair(Box::new(el_model(0)), Box::new(el_model(1))), ob!((ElStr, ElChoice))));
+    v.push(simple("(Choice2<ab,a>, Str<a>)", M::Pair(Box::new(el_model(1)), Box::new(el_model(0))), ob!((ElChoice, ElStr))));
+    v.push(simple("Option<Str<a>>", M::Opt(Box::new(el_model(0))), ob!(Option<ElStr>)));
+    v.push(simple("Option<(Push<a>, Str<ab>)>", M::Opt(Box::new(M::Pair(Box::new(el_model(3)), Box::new(M::Str("ab"))))), ob!(Option<(ElPush, Str<WAB>)>)));
+    v.push(simple("(Option<Choice2<ab,a>>, Str<a>)", M::Pair(Box::new(M::Opt(Box::new(el_model(1)))), Box::new(el_model(0))), ob!((Option<ElChoice>, ElStr))));
+    v.push(simple("SkipChar<0>", M::SkipChar(0), ob!(SkipChar<'_, 0>)));
+    v.push(simple("SkipChar<1>", M::SkipChar(1), ob!(SkipChar<'_, 1>)));
+    v.push(simple("SkipChar<2>", M::SkipChar(2), ob!(SkipChar<'_, 2>)));
+    v.push(simple("SkipChar<3>", M::SkipChar(3), ob!(SkipChar<'_, 3>)));
+    v.push(Case { name: "AtomicRepeat<Choice2<ab,a>>".into(), model: M::Rep(Box::new(el_model(1)), false, 0, None), run: ob!(AtomicRepeat<ElChoice>), min: 0, max: None, is_rep: true, skip: false });
+    v.push(Case { name: "AtomicRepeat<Str< >>".into(), model: M::Rep(Box::new(M::Str(" ")), false, 0, None), run: ob!(AtomicRepeat<Str<WSP>>), min: 0, max: None, is_rep: true, skip: false });
+    // pushes followed by pops: a stack-using pair of repetitions
+    v.push(simple(
+        "(RepMin<Push<a>,SKIP=1,1>, RepMinMax<POP,SKIP=1,0,2>)",
+        M::Pair(Box::new(M::Rep(Box::new(el_model(3)), true, 1, None)), Box::new(M::Rep(Box::new(M::Pop), true, 0, Some(2)))),
+        ob!((RepMin<ElPush, Ign, 1, 1>, RepMinMax<POP<'_>, Ign, 1, 0, 2>)),
+    ));
+    v.push(simple(
+        "(Push<Choice2<ab,a>>, RepMinMax<(POP, Str<a>),SKIP=0,0,3>)",
+        M::Pair(Box::new(M::Push(Box::new(el_model(1)))), Box::new(M::Rep(Box::new(M::Pair(Box::new(M::Pop), Box::new(M::Str("a")))), false, 0, Some(3)))),
+        ob!((Push<ElChoice>, RepMinMax<(POP<'_>, ElStr), Ign, 0, 0, 3>)),
+    ));
+    v
+}
+
+fn check_one(c: &Case, input: &str, ev: &mut Evidence) -> Option<Value> {
+    ev.eval();
+    let mut stack = vec![];
+    let want = model(&c.model, input, 0, &mut stack);
+    let bad = |why: String| Some(json!({"property": "C19", "combinator": c.name, "input": input, "why": why}));
+    let o = match (c.run)(input) {
+        Ok(o) => o,
+        Err(p) => return bad(format!("panic: {}", p)),
+    };
+    let want_end = want.as_ref().map(|w| w.end);
+    if o.parse != want_end {
+        return bad(format!("parse stops at {:?}, the model at {:?}", o.parse, want_end));
+    }
+    if o.check != o.parse {
+        return bad(format!("check stops at {:?}, parse at {:?}", o.check, o.parse));
+    }
+    if want.is_some() {
+        if o.stack_parse != stack || o.stack_check != stack {
+            return bad(format!("final stack: parse {:?}, check {:?}, model {:?}", o.stack_parse, o.stack_check, stack));
+        }
+    } else if o.stack_parse != o.stack_check {
+        return bad(format!("final stacks of parse {:?} and check {:?} differ", o.stack_parse, o.stack_check));
+    }
+    if let (Some(w), true) = (&want, c.is_rep) {
+        let n = o.count.unwrap_or(usize::MAX);
+        if n < c.min || c.max.map(|m| n > m).unwrap_or(false) {
+            return bad(format!("{} elements, bounds are {}..{:?}", n, c.min, c.max));
+        }
+        if n != w.skipped.len() {
+            return bad(format!("{} elements, the model matches {}", n, w.skipped.len()));
+        }
+        if let Some(sk) = &o.skipped {
+            let want_sk: Vec<usize> = if c.skip { w.skipped.clone() } else { vec![0; n] };
+            if *sk != want_sk {
+                return bad(format!("blanks skipped before the elements: {:?}, model {:?}", sk, want_sk));
+            }
+        }
+    }
+    // non-trivial: more potential iterations than MIN, or a trailing blank after the match
+    let nontrivial = match &want {
+        Some(w) => (c.is_rep && w.skipped.len() > c.min) || input[w.end..].starts_with(' ') || !stack.is_empty(),
+        None => c.is_rep && input.contains('a'),
+    };
+    if nontrivial {
+        ev.nontrivial(fnv(format!("{}\u{0}{}", c.name, input).as_bytes()));
+        let class = if want.is_none() { "fewer_than_min" } else if input[want.as_ref().unwrap().end..].starts_with(' ') { "trailing_blank_given_back" } else if c.max.map(|m| want.as_ref().unwrap().skipped.len() == m).unwrap_or(false) { "stopped_at_max" } else { "greedy" };
+        ev.count(&format!("class.{}", class));
+        ev.sample(class, json!({"combinator": c.name, "input": show(input), "end": want_end, "elements": want.as_ref().map(|w| w.skipped.len())}));
+    }
+    None
+}
+
+pub fn run(args: &Args) -> i32 {
+    let tier = args.tier();
+    let seed = args.seed();
+    let mut ev = Evidence::new(
+        "C19",
+        tier,
+        seed,
+        "exhaustive: RepMin / RepMinMax / RepExact instantiated directly from the runtime crate for all MIN<=MAX in 0..4, SKIP in {0,1}, element in {Str, Choice2 of overlapping strings, nested RepMinMax, Push}, skip type AtomicRepeat<Str<blank>>; [T;N] N=0..3, (T1,T2), Option<T>, SkipChar<N> N=0..3, AtomicRepeat, pairs of pushing and popping repetitions x all strings up to length 8 (thorough 9) over {a,b,blank} and up to length 5 (6) with a 2-byte letter added. Oracle: a model written from the statement (greedy, skip only between iterations and only kept when an iteration follows, stop at MAX, fail iff fewer than MIN; arrays/pairs/optionals/skip-n as plain concatenation; failed iterations and optionals restore the stack): verdict, offset, element count within bounds, blanks skipped per element, final stack, parse vs check. Non-trivial = more iterations were possible than MIN, or a blank follows the match, or the stack is used; distinct by (combinator, input).",
+    );
+    ev.assumptions.push("the model in crates/rt/src/c19.rs is the statement of C19 made executable".into());
+    let mut violation = None;
+    let (max_ascii, max_uni) = match tier {
+        Tier::Quick => (8, 5),
+        Tier::Thorough => (9, 6),
+    };
+    let table = cases(false);
+    ev.extra.insert("combinator_instances".into(), json!(table.len()));
+    for_all_strings(&['a', 'b', ' '], max_ascii, |s| {
+        for c in &table {
+            if let Some(v) = check_one(c, s, &mut ev) {
+                violation = Some(v);
+                return false;
+            }
+        }
+        true
+    });
+    if violation.is_none() {
+        let table = cases(true);
+        ev.extra.insert("combinator_instances_unicode".into(), json!(table.len()));
+        for_all_strings(&['a', 'é', ' ', 'b'], max_uni, |s| {
+            for c in &table {
+                if let Some(v) = check_one(c, s, &mut ev) {
+                    violation = Some(v);
+                    return false;
+                }
+            }
+            true
+        });
+    }
+    ev.exhaustive = Some(violation.is_none());
+    if let Some(v) = violation {
+        ev.violations = 1;
+        ev.violation_sample(&v);
+        ev.write();
+        report_violation("C19", &v);
+        return 1;
+    }
+    ev.write();
+    println!("C19 ok: {} evaluations, {} distinct non-trivial", ev.evaluations, ev.distinct_nontrivial());
+    0
+}
+
+pub fn replay(v: &Value, path: &str) -> i32 {
+    let name = v["combinator"].as_str().unwrap_or("");
+    let input = v["input"].as_str().unwrap_or("");
+    let mut ev = Evidence::new("C19", Tier::Quick, 0, "replay");
+    for table in [cases(false), cases(true)] {
+        if let Some(c) = table.iter().find(|c| c.name == name) {
+            if let Some(w) = check_one(c, input, &mut ev) {
+                println!("still failing: {}", w["why"]);
+                println!("VIOLATION property=C19 replay={}", path);
+                return 1;
+            }
+            println!("replay passes");
+            return 0;
+        }
+    }
+    eprintln!("unknown combinator {}", name);
+    2
+}
